@@ -75,6 +75,15 @@ enum Sub2<'a> {
         /// Required line to write
         line: &'a str,
     },
+    /// Connect somewhere (an option whose short name collides with the built-in -h)
+    Connect {
+        /// Remote host
+        #[arg(short, long)]
+        host: Option<&'a str>,
+        /// Port number
+        #[arg(short, long)]
+        port: Option<u16>,
+    },
 }
 
 #[derive(Debug, Command)]
@@ -116,7 +125,10 @@ const SUB1: &[Decl] = &[
     Decl { name: "get", summary: "Get something", opts: &[(Some('i'), Some("item"), Some("ITEM")), (Some('v'), Some("verbose"), None)], pos: &[], subs: SUBSUB },
     Decl { name: "set", summary: "Set something", opts: &[], pos: &["VALUE"], subs: &[] },
 ];
-const SUB2: &[Decl] = &[Decl { name: "write", summary: "Write something", opts: &[], pos: &["LINE"], subs: &[] }];
+const SUB2: &[Decl] = &[
+    Decl { name: "write", summary: "Write something", opts: &[], pos: &["LINE"], subs: &[] },
+    Decl { name: "connect", summary: "Connect somewhere", opts: &[(None, Some("host"), Some("HOST")), (Some('p'), Some("port"), Some("PORT"))], pos: &[], subs: &[] },
+];
 const VISIBLE: &[Decl] = &[
     Decl {
         name: "base1",
